@@ -24,7 +24,8 @@ RULE = ("A case is 1-4 fake nodes, one session (protocol 4/3 = one connection pe
         "in flight (pool shut down or being replaced, depending on the conviction policy); pool without a connection "
         "(REMOTE host with connect_to_remote_hosts=False); connection died earlier (host down and reconnecting, or "
         "replacement connection being opened, the clock advanced by a generated amount); optionally a pooled connection is "
-        "killed after a successful switch (its replacement must select the keyspace).  The switch is triggered by "
+        "killed after a successful switch (its replacement must select the keyspace) and a switch that reported an error is "
+        "retried once every node accepts the keyspace.  The switch is triggered by "
         "execute_async('USE ks'), execute('USE ks') or set_keyspace('ks') through a generated coordinator, nodes hold "
         "the pools' USE requests and the case releases them in a generated order; a schedule tape picks the runnable "
         "virtual thread at every choice point.  Non-trivial: >= 2 hosts in >= 2 distinct situations and the switch "
@@ -60,6 +61,7 @@ def s_case(gran):
         "t_before": st.sampled_from([0.0, 0.3, 1.3, 1.9, 2.5, 4.0]),
         "order": st.lists(st.integers(0, 5), max_size=6),
         "kill_after": st.sampled_from([None, 0, 1, 2, 3]),
+        "retry": st.booleans(),
         "tape": st.lists(st.integers(0, 3), max_size=30 if gran == "locks" else 10),
         "gran": st.just(gran),
     })
@@ -85,7 +87,7 @@ def enum_cases(chunk):
         for order in (chunk["orders"] if n > 1 else [[0]]):
             yield {"pv": 4, "hosts": [list(SITUATIONS[i]) for i in combo], "convict": chunk["convict"],
                    "trigger": "execute_async", "timeout": None, "coord": 0, "t_before": 1.9,
-                   "kill_after": None, "order": list(order) * 4, "tape": [], "gran": "blocking"}
+                   "kill_after": None, "retry": True, "order": list(order) * 4, "tape": [], "gran": "blocking"}
 
 
 def interpret(case, ctx):
@@ -209,112 +211,130 @@ def _history(case, ctx, sim, cluster, session, policy, addrs, script, stt, calls
             for c in S.pool_connections(session, addrs[i]):
                 net.server_close(c)
 
-    # ---- trigger
-    k = case["coord"] % n
-    policy.order = addrs[k:] + addrs[:k]
-    trig = case["trigger"]
-    box = {}
-    if trig == "execute_async":
-        with ctx.driver(["C20.trigger", "execute_async"]):
-            box["fut"] = sim.call(session.execute_async, USE_USER)
-        if "fut" not in box:
-            return
+    def attempt(first):
+        # ---- trigger
+        k = case["coord"] % n
+        policy.order = addrs[k:] + addrs[:k]
+        trig = case["trigger"]
+        box = {}
+        if trig == "execute_async":
+            with ctx.driver(["C20.trigger", "execute_async"]):
+                box["fut"] = sim.call(session.execute_async, USE_USER)
+            if "fut" not in box:
+                return "abort", [], []
 
-        def done():
-            return box["fut"]._event.is_set()
+            def done():
+                return box["fut"]._event.is_set()
 
-        def outcome():
-            f = box["fut"]
-            return ("error", f._final_exception) if f._final_exception is not None else ("ok", None)
-    else:
-        fn = (lambda: session.execute(USE_USER)) if trig == "execute" else (lambda: session.set_keyspace(KS))
-        actor = sim.spawn(fn)
+            def outcome():
+                f = box["fut"]
+                return ("error", f._final_exception) if f._final_exception is not None else ("ok", None)
+        else:
+            fn = (lambda: session.execute(USE_USER)) if trig == "execute" else (lambda: session.set_keyspace(KS))
+            actor = sim.spawn(fn)
 
-        def done():
-            return actor.done
+            def done():
+                return actor.done
 
-        def outcome():
-            return ("error", actor.box["exc"]) if "exc" in actor.box else ("ok", None)
+            def outcome():
+                return ("error", actor.box["exc"]) if "exc" in actor.box else ("ok", None)
 
-    # ---- the nodes answer the pools' USE requests in the generated order
-    failures = []      # ground truth kept by the fake servers: (address, kind) of every failed selection
-    delivered = []
-    order = case["order"]
-    for step in range(40):
-        sim.settle()
-        held = [(nd, c, r) for (nd, c, r) in U.all_held(net) if r.get("query") == USE_POOL]
-        if not held:
-            break
-        idx = (order[step % len(order)] if order else 0) % len(held)
-        node, conn, req = held[idx]
-        for j, (_c, r) in enumerate(node.held):
-            if r is req:
-                del node.held[j]
+        # ---- the nodes answer the pools' USE requests in the generated order
+        failures = []      # ground truth kept by the fake servers: (address, kind) of every failed selection
+        delivered = []
+        order = case["order"]
+        for step in range(40):
+            sim.settle()
+            held = [(nd, c, r) for (nd, c, r) in U.all_held(net) if r.get("query") == USE_POOL]
+            if not held:
                 break
-        ans = script[node.address]
-        if conn.is_closed or conn.is_defunct or conn.srv_closed:
-            # the client already gave up on this connection (e.g. its pool shut down because a sibling failed):
-            # whatever the node would answer now is never seen
-            ctx.label("answer-on-dead-connection")
-            continue
-        delivered.append((node.address, ans))
-        if ans == "ok":
-            node.default(conn, req)
-        elif ans == "invalid":
-            node.reply_error(conn, req, "invalid", "Keyspace 'ks' does not exist")
-            failures.append((node.address, "invalid"))
-        elif ans == "error":
-            node.reply_error(conn, req, "overloaded", "simulated overload")
-            failures.append((node.address, "error"))
-        else:
-            net.server_close(conn)
-            failures.append((node.address, "died"))
-    sim.settle()
+            idx = (order[step % len(order)] if order else 0) % len(held)
+            node, conn, req = held[idx]
+            for j, (_c, r) in enumerate(node.held):
+                if r is req:
+                    del node.held[j]
+                    break
+            ans = script[node.address]
+            if conn.is_closed or conn.is_defunct or conn.srv_closed:
+                # the client already gave up on this connection (e.g. its pool shut down because a sibling failed):
+                # whatever the node would answer now is never seen
+                ctx.label("answer-on-dead-connection")
+                continue
+            delivered.append((node.address, ans))
+            if ans == "ok":
+                node.default(conn, req)
+            elif ans == "invalid":
+                node.reply_error(conn, req, "invalid", "Keyspace 'ks' does not exist")
+                failures.append((node.address, "invalid"))
+            elif ans == "error":
+                node.reply_error(conn, req, "overloaded", "simulated overload")
+                failures.append((node.address, "error"))
+            else:
+                net.server_close(conn)
+                failures.append((node.address, "died"))
+        sim.settle()
 
-    # ---- oracle 1: the switch completes
-    late = False
-    if not done():
-        sim.advance(3.0 + (case["timeout"] or 0.0))
+        # ---- oracle 1: the switch completes
+        late = False
+        if not done():
+            sim.advance(3.0 + (case["timeout"] or 0.0))
+            S.drain_held(sim)
+            late = done()
+        started = bool(switches)
+        situations = set((h[0], h[1] if h[0] == "open" else "-") for h in hosts)
+        if first:
+            ctx.nontrivial(started and n >= 2 and len(situations) >= 2)
+            ctx.label("pools=%d" % n, pool_class, "trigger:" + trig, "switch-started" if started else "switch-not-started")
+            for h in hosts:
+                ctx.label("pre:" + h[0])
+        for _a, ans in delivered:
+            ctx.label("answered:" + ans)
+        if not done():
+            silent = [r for r in calls if r["switch"] and r["cb"] is None]
+            feats = ["shut-down" if r["shutdown"] else ("no-connection" if r["nconn"] == 0 else "has-connection")
+                     for r in silent][:1] or ["no-silent-pool"]
+            ctx.fail(["C20.completes", pool_class] + feats,
+                     "%s never completed although every USE was answered and %.1f virtual s passed; pools that never "
+                     "called back: %r" % (trig, 3.0 + (case["timeout"] or 0.0), silent))
+            ctx.label("outcome:hang")
+            return "hang", failures, delivered
+        kind, exc = outcome()
+        ctx.label("outcome:" + kind + (":late" if late else ""))
+        if kind == "error":
+            ctx.label("error:" + type(exc).__name__)
+
+        # ---- oracle 2: a failed selection on any pool is reported
+        if kind == "ok" and failures:
+            sw = [r for r in cb_order if r["switch"]]
+            # the pool that finishes last is the one whose USE the fake servers answered last (ground truth, not the
+            # driver's own bookkeeping)
+            last_ok = bool(delivered) and delivered[-1][1] in ("ok", "die")
+            real = [f for f in failures if f[1] != "died"]
+            if real and last_ok:
+                feat = ["failed-pool-not-last"]
+            elif not real:
+                feat = ["died-midway"]
+            else:
+                feat = ["last-pool-failed"]
+            ctx.fail(["C20.error-reported"] + feat,
+                     "the switch reported success although selecting the keyspace failed on %r (callback order %r)" % (
+                         failures, [(r["addr"], [type(e).__name__ for e in r["cb"]]) for r in sw]))
+        return kind, failures, delivered
+
+
+    kind, failures, delivered = attempt(True)
+    if kind == "error" and case.get("retry"):
+        # the application retries the same switch a little later; by now every node knows the keyspace
+        ctx.label("retried-after-error")
+        sim.advance(0.5)
         S.drain_held(sim)
-        late = done()
-    started = bool(switches)
-    situations = set((h[0], h[1] if h[0] == "open" else "-") for h in hosts)
-    ctx.nontrivial(started and n >= 2 and len(situations) >= 2)
-    ctx.label("pools=%d" % n, pool_class, "trigger:" + trig, "switch-started" if started else "switch-not-started")
-    for h in hosts:
-        ctx.label("pre:" + h[0])
-    for _a, ans in delivered:
-        ctx.label("answered:" + ans)
-    if not done():
-        silent = [r for r in calls if r["switch"] and r["cb"] is None]
-        feats = ["shut-down" if r["shutdown"] else ("no-connection" if r["nconn"] == 0 else "has-connection")
-                 for r in silent][:1] or ["no-silent-pool"]
-        ctx.fail(["C20.completes", pool_class] + feats,
-                 "%s never completed although every USE was answered and %.1f virtual s passed; pools that never "
-                 "called back: %r" % (trig, 3.0 + (case["timeout"] or 0.0), silent))
-        ctx.label("outcome:hang")
-        return
-    kind, exc = outcome()
-    ctx.label("outcome:" + kind + (":late" if late else ""))
-    if kind == "error":
-        ctx.label("error:" + type(exc).__name__)
-
-    # ---- oracle 2: a failed selection on any pool is reported
-    if kind == "ok" and failures:
-        sw = [r for r in cb_order if r["switch"]]
-        # the pool that finishes last is the one whose USE the fake servers answered last (ground truth, not the
-        # driver's own bookkeeping)
-        last_ok = bool(delivered) and delivered[-1][1] in ("ok", "die")
-        real = [f for f in failures if f[1] != "died"]
-        if real and last_ok:
-            feat = ["failed-pool-not-last"]
-        elif not real:
-            feat = ["died-midway"]
-        else:
-            feat = ["last-pool-failed"]
-        ctx.fail(["C20.error-reported"] + feat,
-                 "the switch reported success although selecting the keyspace failed on %r (callback order %r)" % (
-                     failures, [(r["addr"], [type(e).__name__ for e in r["cb"]]) for r in sw]))
+        for a in addrs:
+            script[a] = "ok"
+        stt["pre_conns"] = set(c.sim_id for c in net.conns if not c.is_closed and not c.is_defunct)
+        stt["answered"] = set()
+        del calls[:], cb_order[:], switches[:]
+        kind, failures, delivered = attempt(False)
+        ctx.label("retry:" + kind)
     if kind != "ok":
         return
 
